@@ -510,6 +510,27 @@ class Generator:
         ops = ['append', 'insert', 'insert', 'pop', 'delint', 'setint', 'setslice', 'delslice', 'extend', 'clear', 'setext', 'delext',
                'move', 'copyinsert', 'iadd', 'remove']
         op = r.choice(ops)
+        if n and r.random() < 0.03:
+            # drop_many(): positions as a list reads them - negative ones from the end, repeated ones once, out-of-range ones refused
+            idxs = [r.randrange(-n - 1, n + 1) for _ in range(r.randint(1, 3))]
+            if r.random() < 0.4:
+                idxs.append(idxs[0])
+            ref = list(w)
+            try:
+                gone = {range(n)[i] for i in idxs}
+                exp_items, expect = [x for i, x in enumerate(ref) if i not in gone], None
+            except IndexError:
+                exp_items, expect = ref, IndexError
+
+            def lc():
+                cur = list(getattr(m, a))
+                if len(cur) != len(exp_items) or any(x is not y for x, y in zip(cur, exp_items)):
+                    return f'drop_many({idxs}) on {n} elements left {len(cur)} elements, a list without those positions has {len(exp_items)}'
+                return None
+            o = Op(f'{k}:dropmany', f'{path}.{a}.drop_many({idxs}) n={n}', m, path, lambda: list(getattr(m, a)), lambda: w.drop_many(idxs),
+                   attr=a, list_check=lc, expect=expect)
+            o.list_attr = a
+            return o
         if r.random() < 0.04 and (not self.syntax_only or k == 'raw_list'):
             # assign the whole list: a deep copy of the same list of another model of this class
             pool = [x for x in self.corpus.by_class.get(type(m), []) if len(getattr(x, a))]
